@@ -91,6 +91,7 @@ package peering
 
 //@ func Peering.AddLink
 //@   requires nonnil(link) && link.switchLabel != 0
+//@   callsite m.RoutingTable.AddRoute peer-route-only-for-a-link-that-gets-registered [C16]: !has(p.links, link.peer) && !has(p.linksByLabel, link.switchLabel) && arg1.DstIP == link.peer && arg1.NextHop == link.peer
 //@ func Peering.RemoveLink
 //@   requires nonnil(link)
 //@   callsite m.RoutingTable.RemoveNextHop peer-route-goes-only-with-the-registration [C16]: arg1 == link.peer && !has(p.links, arg1)
